@@ -73,6 +73,7 @@ type simCluster struct {
 	nextPay   int
 	// abstract shadow (vh raft abs): static membership, no snapshots; every event is reported to coq/Abs/Exec.v
 	static bool
+	calm   bool // elections and crashes are rare while a leader exists
 	abs    *absShadow
 	hint   absHint
 	hintp  *absHint // filled in by the event itself (a request written by a replication)
@@ -352,6 +353,10 @@ func (c *simCluster) emit(n *simNode, desc, ev, pre, opts string, o stepObs) {
 	c.note("n%d %s -> %s", id, desc, outk)
 	if o.panicv != nil {
 		c.finding("C15", "panic "+kind, fmt.Sprintf("node %d panicked in %s: %v", id, desc, o.panicv))
+		if strings.HasPrefix(kind, "LFlr") || strings.HasPrefix(kind, "ESnap") {
+			// replication work and snapshot handling must survive compaction (nil view, unmapped segment, missing snapshot)
+			c.finding("C09", "panic "+kind, fmt.Sprintf("node %d panicked in %s: %v", id, desc, o.panicv))
+		}
 	}
 }
 
@@ -696,6 +701,10 @@ func (c *simCluster) step() {
 			c.note("lost %s", m.lit)
 		}
 	case x < 38:
+		if ls := c.leaders(); c.calm && len(ls) > 0 && c.rnd.Intn(8) != 0 {
+			c.leaderStep(ls[c.rnd.Intn(len(ls))]) // calm runs: long reigns, deep logs
+			return
+		}
 		if n.cur == Leader && c.rnd.Intn(4) != 0 {
 			return // leaders rarely lose quorum contact in these runs
 		}
@@ -708,6 +717,10 @@ func (c *simCluster) step() {
 			return nil, nil
 		})
 	case x < 39:
+		if ls := c.leaders(); c.calm && len(ls) > 0 && c.rnd.Intn(3) != 0 {
+			c.leaderStep(ls[c.rnd.Intn(len(ls))])
+			return
+		}
 		c.crash(id, true)
 	case x < 41:
 		peer := c.ids[c.rnd.Intn(len(c.ids))]
@@ -882,7 +895,8 @@ func (c *simCluster) candidateStep(n *simNode) {
 		return
 	default:
 	}
-	for vid, vn := range n.r.configs.Latest.Nodes {
+	for _, vid := range sortedIDs(n.r.configs.Latest.Nodes) {
+		vn := n.r.configs.Latest.Nodes[vid]
 		if vn.Voter && vid != id && !c.asked[id][vid] {
 			c.asked[id][vid] = true
 			q := &voteReq{req: req{n.r.term, id}, lastLogIndex: n.r.lastLogIndex, lastLogTerm: n.r.lastLogTerm, transfer: n.c.transfer}
